@@ -158,8 +158,8 @@ FIRST_MISSED = {
     'c11-y': 'every third case gives the action a transformation of its output (same process, same environment)',
     'c11-z': 'NOT ANSWERED in this session: an environment set that has become EMPTY (needs Exactly started with a '
              'minimal environment and every variable unset)',
-    'c12-x': 'NOT ANSWERED in this session: -rel-here in a suite file named by a relative path with a directory part',
-    'c12-y': 'NOT ANSWERED in this session: -rel-here in a file included two levels deep through a sub directory',
+    'c12-x': 'kind H: -rel-here in suite and case files named by relative paths with a directory part, from other directories',
+    'c12-y': 'kind H: -rel-here in files included two and three levels deep through sub directories',
     'c13-x': 'NOT ANSWERED in this session: a source that answers differently on its second reading (the transformer '
              'must freeze it); needs a program-driven line matcher upstream of a multi-range `-line-nums`',
     'c14-x': 'kind `special-file`: procfs files (size reported as 0, characters when read) through nine consumers x two '
